@@ -9,6 +9,7 @@ import PkVerif.Lemmas.RefMergeK
 import PkVerif.Lemmas.RefOverlayK
 import PkVerif.Lemmas.RefProxyK
 import PkVerif.Lemmas.RefLeavesK
+import PkVerif.Lemmas.RefNary
 import PkVerif.Base.Order
 /-!
 # C01 – every storage backend behaves as a content-addressed map
@@ -64,6 +65,9 @@ def interpRefines (content : Bytes → Bytes) (route isSchema : Bytes → Bool) 
   | .proxy o (.shard2 a b) max, h =>
     proxyRefines (interpRefines content route isSchema o (by simp only [Cfg.WF, Bool.and_eq_true] at h; exact h.1))
       (interpRefines content route isSchema (.shard2 a b) (by simp only [Cfg.WF, Bool.and_eq_true] at h ⊢; exact h.2)).toCaches max
+  | .proxy o (.shardBy r a b) max, h =>
+    proxyRefines (interpRefines content route isSchema o (by simp only [Cfg.WF, Bool.and_eq_true] at h; exact h.1))
+      (interpRefines content route isSchema (.shardBy r a b) (by simp only [Cfg.WF, Bool.and_eq_true] at h ⊢; exact h.2)).toCaches max
   | .proxy o (.replica2 a b) max, h =>
     proxyRefines (interpRefines content route isSchema o (by simp only [Cfg.WF, Bool.and_eq_true] at h; exact h.1))
       (interpRefines content route isSchema (.replica2 a b) (by simp only [Cfg.WF, Bool.and_eq_true] at h ⊢; exact h.2)).toCaches max
@@ -79,6 +83,9 @@ def interpRefines (content : Bytes → Bytes) (route isSchema : Bytes → Bool) 
       (interpRefines content route isSchema u (by simp [Cfg.WF] at h; exact h.2))
   | .shard2 a b, h =>
     shard2Refines route (interpRefines content route isSchema a (by simp [Cfg.WF] at h; exact h.1))
+      (interpRefines content route isSchema b (by simp [Cfg.WF] at h; exact h.2))
+  | .shardBy r a b, h =>
+    shard2Refines r (interpRefines content route isSchema a (by simp [Cfg.WF] at h; exact h.1))
       (interpRefines content route isSchema b (by simp [Cfg.WF] at h; exact h.2))
   | .replica2 a b, h =>
     replica2Refines (interpRefines content route isSchema a (by simp [Cfg.WF] at h; exact h.1))
@@ -174,6 +181,7 @@ inductive LCfg where
   | proxy (origin : LCfg) (cache : CacheCfg) (max : Nat)
   | overlay (lower upper : LCfg)
   | shard2 (a b : LCfg)
+  | shardBy (r : Bytes → Bool) (a b : LCfg)
   | replica2 (a b : LCfg)
   | cond2 (t e : LCfg)
 
@@ -190,6 +198,7 @@ def LCfg.toCfg (t : Pk.Ref.Tbl) : LCfg → Cfg
   | .proxy o c max => .proxy (o.toCfg t) c.toCfg max
   | .overlay l u => .overlay (l.toCfg t) (u.toCfg t)
   | .shard2 a b => .shard2 (a.toCfg t) (b.toCfg t)
+  | .shardBy r a b => .shardBy r (a.toCfg t) (b.toCfg t)
   | .replica2 a b => .replica2 (a.toCfg t) (b.toCfg t)
   | .cond2 a b => .cond2 (a.toCfg t) (b.toCfg t)
 
@@ -215,6 +224,8 @@ def interpRefinesK (t : Pk.Ref.Tbl) (ht : Pk.Files.TblOK t) (content : Bytes →
     overlayRefinesK (interpRefinesK t ht content route isSchema l) (interpRefinesK t ht content route isSchema u)
   | .shard2 a b =>
     shard2RefinesK route (interpRefinesK t ht content route isSchema a) (interpRefinesK t ht content route isSchema b)
+  | .shardBy r a b =>
+    shard2RefinesK r (interpRefinesK t ht content route isSchema a) (interpRefinesK t ht content route isSchema b)
   | .replica2 a b =>
     replica2RefinesK (interpRefinesK t ht content route isSchema a) (interpRefinesK t ht content route isSchema b)
   | .cond2 a b =>
@@ -235,6 +246,101 @@ theorem C01_all_nestings_with_disk_leaves (content : Bytes → Bytes) (route isS
 
 /-- a three-level nesting satisfies the hypotheses (non-vacuity) -/
 example : (Cfg.overlay (.shard2 .mem (.ns .mem)) (.proxy (.cond2 .mem .mem) (.memCache 100) 50)).WF = true := by decide
+
+/-! ### shard and replica over ANY number of sub-stores
+
+shard.go and replica.go keep a slice of sub-stores: point operations index it (`Sum32(ref) % n`) or
+loop over it, and enumerate hands the whole slice to ONE call of `MergedEnumerateStorage`.
+`shardNImpl` / `replicaNImpl` (Model/Stores.lean) are those loops.  A configuration tree has two-way
+nodes only; the drivers build an n-way node as the right-nested tree `Cfg.shardNest` /
+`Cfg.replicaNest`.  The theorems below tie the two: the n-way merge IS the nested two-way merge, both
+n-way models refine the reference map whenever every sub-store does, and on every well-keyed history
+they answer exactly like the nested trees. -/
+
+/-- **the n-way merged enumeration of mergedenum.go is the nested two-way one**: for strictly
+ascending sources, merging `x` with all the others in one call sends exactly what merging `x` with
+the (merged, cut at `limit`) enumeration of the others sends -/
+theorem C01_merged_nway_is_nested (limit : Nat) (x : List MergedEnum.SR) (rest : List (List MergedEnum.SR))
+    (h : MergedEnum.AllAsc (x :: rest)) :
+    MergedEnum.mergedEnumerate limit (x :: rest) =
+      MergedEnum.mergedEnumerate limit [x, MergedEnum.mergedEnumerate limit rest] :=
+  MergedEnum.merged_cons_nest limit x rest h
+
+/-- **shard over any number of sub-stores** (the slice indexed by `route k % n`, ONE n-way merged
+enumeration) refines the reference map whenever every sub-store does, for every routing function -/
+theorem C01_shardN {content : Bytes → Bytes} (route : Bytes → Nat) (k : Impl) (r : List Impl)
+    (Rk : Refines content k) (Rr : RKids content r) (ops : List Op) (hops : ∀ op ∈ ops, op.WK content) :
+    (shardNImpl route (k :: r)).run (shardNImpl route (k :: r)).init ops = RefMap.run [] ops :=
+  shardN_run_eq route k r Rk Rr ops hops
+
+/-- **replica over any number of sub-stores** (receive / stat / remove on all of them, fetch from the
+first that has the blob, ONE n-way merged enumeration; `minWritesForSuccess` = their number) refines
+the reference map whenever every sub-store does -/
+theorem C01_replicaN {content : Bytes → Bytes} (k : Impl) (r : List Impl) (R : RKids content (k :: r))
+    (ops : List Op) (hops : ∀ op ∈ ops, op.WK content) :
+    (replicaNImpl (k :: r)).run (replicaNImpl (k :: r)).init ops = RefMap.run [] ops :=
+  (replicaNRefines k r R).run_init ops hops
+
+/-- the refinement proofs of a list of supported configurations -/
+def rkidsOf (content : Bytes → Bytes) (route isSchema : Bytes → Bool) :
+    (r : List Cfg) → (∀ c ∈ r, c.WF = true) → RKids content (r.map (interp route isSchema))
+  | [], _ => ()
+  | c :: r, h => (interpRefines content route isSchema c (h c (by simp)),
+      rkidsOf content route isSchema r (fun c' hc => h c' (by simp [hc])))
+
+/-- **the tree the drivers build for an n-way shard is the n-way shard**: over any supported
+sub-configurations, the slice model and the right-nested tree of two-way shards (sub-store `i`
+against the rest, routing `sum k % n`) answer every well-keyed history alike – both like the
+reference map -/
+theorem C01_shardN_tree (content : Bytes → Bytes) (route isSchema : Bytes → Bool) (sum : Bytes → Nat)
+    (k : Cfg) (r : List Cfg) (hk : k.WF = true) (hr : ∀ c ∈ r, c.WF = true) (ops : List Op)
+    (hops : ∀ op ∈ ops, op.WK content) :
+    let tree := interp route isSchema (Cfg.shardNest sum (r.length + 1) 0 k r)
+    let slice := shardNImpl sum (interp route isSchema k :: r.map (interp route isSchema))
+    slice.run slice.init ops = tree.run tree.init ops ∧ tree.run tree.init ops = RefMap.run [] ops := by
+  intro tree slice
+  have h1 : slice.run slice.init ops = RefMap.run [] ops :=
+    shardN_run_eq sum _ _ (interpRefines content route isSchema k hk)
+      (rkidsOf content route isSchema r hr) ops hops
+  have h2 : tree.run tree.init ops = RefMap.run [] ops :=
+    C01_all_nestings content route isSchema _ (wf_shardNest sum _ r k 0 hk hr) ops hops
+  exact ⟨h1.trans h2.symm, h2⟩
+
+/-- the same for replica -/
+theorem C01_replicaN_tree (content : Bytes → Bytes) (route isSchema : Bytes → Bool)
+    (k : Cfg) (r : List Cfg) (hk : k.WF = true) (hr : ∀ c ∈ r, c.WF = true) (ops : List Op)
+    (hops : ∀ op ∈ ops, op.WK content) :
+    let tree := interp route isSchema (Cfg.replicaNest k r)
+    let slice := replicaNImpl (interp route isSchema k :: r.map (interp route isSchema))
+    slice.run slice.init ops = tree.run tree.init ops ∧ tree.run tree.init ops = RefMap.run [] ops := by
+  intro tree slice
+  have h1 : slice.run slice.init ops = RefMap.run [] ops :=
+    (replicaNRefines _ _ (interpRefines content route isSchema k hk,
+      rkidsOf content route isSchema r hr)).run_init ops hops
+  have h2 : tree.run tree.init ops = RefMap.run [] ops :=
+    C01_all_nestings content route isSchema _ (wf_replicaNest r k hk hr) ops hops
+  exact ⟨h1.trans h2.symm, h2⟩
+
+/-- the tree of an n-way shard denotes the nested model level by level (`shard2Impl` with the
+routing predicate "not sub-store `i`") -/
+theorem C01_shardN_tree_model (route isSchema : Bytes → Bool) (sum : Bytes → Nat) (n : Nat) (k : Cfg)
+    (r : List Cfg) :
+    interp route isSchema (Cfg.shardNest sum n 0 k r) =
+      shardNestImpl sum n 0 (interp route isSchema k) (r.map (interp route isSchema)) :=
+  interp_shardNest route isSchema sum n r k 0
+
+/-- non-vacuity: a four-way shard of supported sub-trees, one of them a three-way replica -/
+example : (Cfg.shardNest (fun k => k.length) 4 0 .mem
+    [.ns .mem, Cfg.replicaNest .mem [.overlay .mem .mem, .mem], .proxy .mem (.memCache 10) 5]).WF = true := by
+  decide
+example : ((shardNImpl (fun k => k.length) [memImpl, memImpl, memImpl]).run
+    (shardNImpl (fun k => k.length) [memImpl, memImpl, memImpl]).init
+    [.recv [1] [7], .recv [1, 2] [8], .recv [1, 2, 3] [9, 9], .enum [] 2, .fetch [1, 2], .rm [1], .enum [] 5]) =
+    [.sized 1, .sized 1, .sized 2, .refs [([1], 1), ([1, 2], 1)], .bytes [8], .ok,
+     .refs [([1, 2], 1), ([1, 2, 3], 2)]] := by decide
+example : ((replicaNImpl [memImpl, memImpl, memImpl]).run (replicaNImpl [memImpl, memImpl, memImpl]).init
+    [.recv [1] [7], .recv [2] [8], .stat [1], .enum [] 1, .rm [1], .fetch [1], .enum [] 5]) =
+    [.sized 1, .sized 1, .sized 1, .refs [([1], 1)], .ok, .notExist, .refs [([2], 1)]] := by decide
 
 /-! ### the enumeration contract of the reference map (hence of everything that refines it) -/
 
